@@ -284,8 +284,11 @@ Definition c_remove_ptr (c : cont) (off : N) (k : cnt) : cont * cnt * option N :
 Definition c_set_num (c : cont) (n : N) (k : cnt) : cont * cnt :=
   let '(c1, k1) := if maxo c <? n then c_resize c n k else (c, k) in
   let start := num c1 in
-  let '(a, k2) := iter_up (construct_step defv) (N.to_nat (n - start)) start (blk_of c1, k1) in
-  (upd_blk (mkC (objlist c1) n (maxo c1)) a, k2).
+  (* shrinking: for (i = numelements; i < startNum; ++i) objlist[i].~Type(); *)
+  let '(a0, k2) := iter_up destroy_step (N.to_nat (start - n)) n (blk_of c1, k1) in
+  (* numobjects = numelements; growing: for (i = startNum; i < numobjects; ++i) new(objlist + i) Type(); *)
+  let '(a, k3) := iter_up (construct_step defv) (N.to_nat (n - start)) start (a0, k2) in
+  (upd_blk (mkC (objlist c1) n (maxo c1)) a, k3).
 
 (* SetNumObjectsUninitialized *)
 Definition c_set_num_uninit (c : cont) (n : N) (k : cnt) : cont * cnt :=
